@@ -92,7 +92,8 @@ def make_target(spec):
         if mode == "none":
             return _spell(y, out)
         sd = noise_sd(spec, z)
-        y = y + sd * np.random.randn()
+        if not n.get("quiet"):
+            y = y + sd * np.random.randn()
         if mode == "specified":
             return (_spell(y, out), _spell(sd, out) if out != "arr11" else float(sd))
         return _spell(y, out)
